@@ -302,6 +302,23 @@ func (e *Env) discharge(ob *Obligation) {
 		if ob.Hinted != "" {
 			subs = splitScripts(ob.Hinted, ob.PC)
 		}
+		// a conjunctive goal: one query per conjunct (each with its own skolem hints)
+		if cj := conjuncts(ob.Goal); len(cj) > 1 && len(cj) <= 12 {
+			k := strings.LastIndex(script, "(assert ")
+			if k > 0 {
+				var cs []string
+				for _, g := range cj {
+					if h := hintedScript(script[:k], ob.PC, g); h != "" {
+						cs = append(cs, h)
+					} else {
+						cs = append(cs, script[:k]+"(assert "+mkAnd(ob.PC, mkNot(g))+")\n(check-sat)\n")
+					}
+				}
+				if len(subs) <= 1 || len(cs) >= len(subs) {
+					subs = cs
+				}
+			}
+		}
 		ch := make(chan jres, len(jobs)+1)
 		solverSlots <- struct{}{}
 		for _, j := range jobs {
@@ -798,4 +815,35 @@ func (e *Env) rollback(s *sessSnap) {
 	e.sess.log.Reset()
 	e.sess.log.WriteString(s.log)
 	e.declared, e.asserted, e.iteNames = s.declared, s.asserted, s.iteNames
+}
+
+// conjuncts flattens a goal of the form (and a b ...) / (= true (and ...)).
+func conjuncts(g string) []string {
+	if strings.HasPrefix(g, "(= true ") {
+		if a := topArgs(g); len(a) == 3 {
+			g = a[2]
+		}
+	}
+	if strings.HasPrefix(g, "(=> ") {
+		// (=> a (and b c)) splits into (=> a b), (=> a c)
+		if a := topArgs(g); len(a) == 3 {
+			inner := conjuncts(a[2])
+			if len(inner) > 1 {
+				var out []string
+				for _, x := range inner {
+					out = append(out, sx("=>", a[1], x))
+				}
+				return out
+			}
+		}
+		return []string{g}
+	}
+	if !strings.HasPrefix(g, "(and ") {
+		return []string{g}
+	}
+	var out []string
+	for _, a := range topArgs(g)[1:] {
+		out = append(out, conjuncts(a)...)
+	}
+	return out
 }
